@@ -49,6 +49,14 @@ Definition gf128_mul (a b : gf) : gf :=
   let '(r0, r1, _) := Nat.iter 64 (gf_step a) (r0, r1, fst b) in
   (r0, r1).
 
+(* gf128_mul_by_2 (used by the XTS tweak update) and gf128_set_one *)
+Definition gf128_mul_by_2 (a : gf) : gf :=
+  let '(a0, a1) := a in
+  let r1 := w64 (N.lor (N.shiftl a1 1) (N.shiftr a0 63)) in
+  let r0 := w64 (N.shiftl a0 1) in
+  (if N.testbit a1 63 then N.lxor r0 0x87 else r0, r1).
+Definition gf_one : gf := (1, 0).
+
 (* ---------- Spec on one 128-bit polynomial ---------- *)
 Definition ones128 : N := N.ones 128.
 Definition poly (a : gf) : N := fst a + 2^64 * snd a.
